@@ -239,6 +239,9 @@ def precond(ins, regs):
                 import scipy.linalg
                 _, l, u = scipy.linalg.lu(m)
                 return bool(np.min(np.abs(np.diag(u))) >= 0.2 and _smin(m) >= 0.2)
+            if op == 'logdet':
+                # algopy.logdet is log(det(x)): defined for positive determinants only
+                return bool(_smin(m) >= 0.2 and np.linalg.det(m) >= 0.05)
             return bool(_smin(m) >= 0.2)
         if op == 'solve':
             m, b = np.asarray(regs[ins[1]]), np.asarray(regs[ins[2]])
